@@ -58,8 +58,10 @@ func remainderExamined(c *Ctx, r *Report, read *ssa.Function, at ssa.Instruction
 		rr2 := reachFrom(read, at, isEchoTest, nil)
 		var filed ssa.Instruction
 		for in := range rr2.visited {
-			if ci, ok := in.(*ssa.Call); ok && ci.Call.StaticCallee() == storeMsg {
-				filed = in
+			if ci, ok := in.(*ssa.Call); ok {
+				if sc := ci.Call.StaticCallee(); sc == storeMsg || (sc != nil && sc.Pkg == read.Pkg && sc != read && len(staticCallsTo(sc, storeMsg)) > 0) {
+					filed = in
+				}
 			}
 		}
 		if filed != nil {
@@ -79,20 +81,61 @@ func checkEchoKeepsRest(c *Ctx, r *Report, read *ssa.Function) {
 	rule := "C08/echo-keeps-rest"
 	n := 0
 	var splits []*ssa.Call
-	allInstrs(read, func(in ssa.Instruction) {
-		call, ok := in.(*ssa.Call)
-		if !ok {
-			return
+	at := map[*ssa.Call]ssa.Instruction{} // where, in the reader itself, the trimming happens
+	collect := func(fn *ssa.Function, site ssa.Instruction) {
+		allInstrs(fn, func(in ssa.Instruction) {
+			call, ok := in.(*ssa.Call)
+			if !ok {
+				return
+			}
+			o := CalleeObj(call)
+			if o == nil || o.Pkg() == nil || o.Name() != "Split" && o.Name() != "SplitN" && o.Name() != "SplitAfterN" {
+				return
+			}
+			switch o.Pkg().Path() {
+			case "regexp", "bytes", "strings":
+				splits = append(splits, call)
+				// a helper that holds the whole "while a delimiter is in the buffer" loop is analysed in itself; one
+				// that only cuts the echo off is analysed at its call site
+				ownLoop := false
+				if pp := c.LookupField("channel", "Channel", "PromptPattern"); pp != nil && site != nil {
+					allInstrs(fn, func(x ssa.Instruction) {
+						if isDelimiterTest(x, pp, 0) {
+							ownLoop = true
+						}
+					})
+				}
+				if site == nil || ownLoop {
+					at[call] = call
+				} else {
+					at[call] = site
+				}
+			}
+		})
+	}
+	collect(read, nil)
+	if len(splits) == 0 {
+		// the trimming moved into an unexported helper of the package (one level, or two through a loop helper)
+		var visit func(fn *ssa.Function, site ssa.Instruction, d int)
+		visit = func(fn *ssa.Function, site ssa.Instruction, d int) {
+			for _, ci := range callInstrs(fn) {
+				h := ci.Common().StaticCallee()
+				if h == nil || h.Pkg != read.Pkg || h == read || h.Object() == nil || h.Object().Exported() || len(h.Blocks) == 0 {
+					continue
+				}
+				s := site
+				if s == nil {
+					s = ci
+				}
+				before := len(splits)
+				collect(h, s)
+				if len(splits) == before && d > 0 {
+					visit(h, s, d-1)
+				}
+			}
 		}
-		o := CalleeObj(call)
-		if o == nil || o.Pkg() == nil || o.Name() != "Split" && o.Name() != "SplitN" && o.Name() != "SplitAfterN" {
-			return
-		}
-		switch o.Pkg().Path() {
-		case "regexp", "bytes", "strings":
-			splits = append(splits, call)
-		}
-	})
+		visit(read, nil, 1)
+	}
 	if len(splits) == 0 {
 		// second idiom: loc := delim.FindIndex(b); b = b[loc[1]:]  (first match; keep everything behind it)
 		var cuts []*ssa.Slice
@@ -177,7 +220,11 @@ func checkEchoKeepsRest(c *Ctx, r *Report, read *ssa.Function) {
 			r.Bad(rule, construct, c.Pos(sp.Pos()), bad+": a reply the server sent in full right behind the echo is lost")
 		} else {
 			r.OK(rule, construct, c.Pos(sp.Pos()), "split(…, 2)[1]: only the bytes up to the first delimiter are dropped")
-			remainderExamined(c, r, read, sp, construct)
+			scope := read
+			if site := at[sp]; site != nil && site.Parent() != read {
+				scope = site.Parent()
+			}
+			remainderExamined(c, r, scope, at[sp], construct)
 		}
 	}
 }
